@@ -170,3 +170,263 @@ def c01(run):
             run.violation("is_valid", [t], b, "ok " + ("T" if a.startswith("ok ") else "F"),
                           "is_valid vs constructor", op=ops[k + 1])
     run_spec(run, "texts", texts, "spec.iban_valid", iban_accept, "IBAN(text)")
+
+
+def spec_lines(ops):
+    from corr import run_driver
+    return run_driver(ops) if ops else []
+
+
+# --------------------------------------------------------------------------- C02
+@prop("C02",
+      rule="per country: structure-conforming BBANs (random, and with registry bank codes) -> from_bban, "
+           "plus all 100 check-digit pairs around each; non-trivial = distinct (country, BBAN, pair)",
+      note="arithmetic proved for the model; BBAN quantified in the library's compact upper-case form")
+def c02(run):
+    S = Streams(run.seed * 1000 + 2)
+    per = run.scale(2, 40)
+    ops, meta = [], []
+    for cc in S.countries:
+        for j in range(per):
+            b = (S.bban_with_bank(cc) if j % 2 else S.bban(cc)).upper()
+            dd = iban_check_digits(cc, b)
+            ops.append(["iban.from_bban", hx(cc), hx(b)])
+            meta.append(("from", cc, b, dd))
+            for k in range(100):
+                ops.append(["iban.new", hx(cc + "%02d" % k + b), "F", "F"])
+                meta.append(("pair", cc, b, "%02d" % k))
+    reals, _ = run.correspond("from_bban+pairs", ops)
+    sp = spec_lines([["spec.check_digits", hx(m[1]), hx(m[2])] for m in meta if m[0] == "from"])
+    si = 0
+    accepted = {}
+    for f, m, a in zip(ops, meta, reals):
+        if m[0] == "from":
+            exp = unhx(sp[si][3:])
+            si += 1
+            want = "ok " + hx(m[1] + exp + m[2])
+            if a != want or exp != m[3] or not ("02" <= exp <= "98"):
+                run.violation("IBAN.from_bban", [m[1], m[2]], a, want, "from_bban vs Spec check digits", op=f,
+                              expected_line=want)
+            accepted[(m[1], m[2])] = [exp, []]
+        else:
+            if a.startswith("ok "):
+                accepted[(m[1], m[2])][1].append(m[3])
+    for (cc, b), (exp, got) in accepted.items():
+        if got != [exp]:
+            run.violation("IBAN(cc+dd+bban) for dd in 00..99", [cc, b], "accepted pairs " + ",".join(got),
+                          "exactly " + exp, "uniqueness sweep over all 100 pairs",
+                          op=["iban.new", hx(cc + (got[0] if got and got[0] != exp else exp) + b), "F", "F"])
+
+
+# --------------------------------------------------------------------------- C04
+def bic_accept(strict):
+    def f(t):
+        op = ["bic.new", hx(t), "F", strict]
+        r = real(op)
+        return (r.startswith("ok "), r, op)
+    return f
+
+
+@prop("C04",
+      rule="texts = registry BICs, single-defect mutants over the wide alphabet, malformed texts, every "
+           "length 0..14, every position of 8/11-character BICs x alphabet, all 676 country codes, both "
+           "compliance modes; non-trivial = distinct (text, mode) with length 8 or 11 after cleaning",
+      note="pattern strings are data (regenerated); length/structure/country order is logic tied by "
+           "correspondence; pycountry's code list is read from the installed package")
+def c04(run):
+    S = Streams(run.seed * 1000 + 4)
+    r = S.r
+    bics = sorted({e["bic"] for e in S.banks if e["bic"]})
+    texts = []
+    for b in r.sample(bics, run.scale(300, len(bics))):
+        texts += [b, S.mutate(b), S.decorate(S.mutate(b))]
+    base8, base11 = "GENODEM1", "GENODEM1GLS"
+    alph = S.wide if run.tier == "thorough" else r.sample(S.wide, 40) + list("0Aa -")
+    for base in (base8, base11, "1234DEWWXXX"):
+        for p in range(len(base)):
+            for ch in alph:
+                texts.append(base[:p] + ch + base[p + 1:])
+    for n in range(0, 15):
+        texts.append(("GENODEM1GLSXXXX")[:n])
+        texts.append("".join(r.choice(DIGITS + UPPER) for _ in range(n)))
+    for a in UPPER:
+        for b in UPPER:
+            texts.append("GENO" + a + b + "M1GLS")
+            texts.append("GENO" + a + b + "M1")
+    for _ in range(run.scale(500, 20000)):
+        texts.append(S.malformed()[:20])
+    if run.tier == "thorough":
+        run.exhaustive = True
+    ops = []
+    for t in texts:
+        c = common.clean(t)
+        for strict in "FT":
+            ops.append(["bic.new", hx(t), "F", strict])
+        ops.append(["bic.is_valid", hx(c)])
+    reals, _ = run.correspond("texts", ops, lambda f, a: len(common.clean(unhx(f[1]))) in (8, 11))
+    for strict in "FT":
+        from corr import run_driver
+        out = run_driver([["spec.bic_valid", strict, hx(common.clean(t))] for t in texts])
+        acc = bic_accept(strict)
+        for t, o in zip(texts, out):
+            a = acc(t)
+            run.count(1)
+            if (o == "ok T") != a[0]:
+                run.violation("BIC(text, enforce_swift_compliance=%s)" % (strict == "T"), [t], a[1],
+                              "accepted" if o == "ok T" else "rejected", "implementation vs Lean Spec iso9362",
+                              op=a[2], expected_line="ok" if o == "ok T" else "err")
+    for k in range(0, len(ops), 3):
+        if (reals[k].startswith("ok ")) != (reals[k + 2] == "ok T") or not reals[k + 2].startswith("ok "):
+            run.violation("BIC.is_valid", [unhx(ops[k][1])], reals[k + 2], reals[k], "is_valid vs constructor",
+                          op=ops[k + 2])
+
+
+# --------------------------------------------------------------------------- C05
+@prop("C05",
+      rule="texts = malformed stream (Unicode digits/letters, surrogates, 5000-digit strings, empty), "
+           "single- and double-defect mutants of valid IBANs/BICs, with and without national validation / "
+           "strict mode; the class of every outcome (including non-library exceptions) is compared with the "
+           "model and every raised error class with the Spec's defect predicate; non-trivial = distinct text "
+           "that passes the first stage or is in the malformed stream",
+      note="totality/soundness proved for the model for IBAN without national validation and BIC; with "
+           "national validation totality follows from C06/C07 (see there)")
+def c05(run):
+    S = Streams(run.seed * 1000 + 5)
+    r = S.r
+    texts = []
+    for cc in S.countries:
+        for _ in range(run.scale(5, 150)):
+            i = S.iban(cc, with_bank=r.random() < 0.5)
+            texts += [i, S.mutate(i), S.mutate(S.mutate(i))]
+    for _ in range(run.scale(2500, 100000)):
+        texts.append(S.malformed())
+    digits, spaces, to_ascii = U()
+    for d in (digits if run.tier == "thorough" else r.sample(digits, 60)):
+        texts.append("DE" + d + "9370400440532013000")
+        texts.append("DE89" + d + "70400440532013000")
+    ops = []
+    natl = sorted({k.split(":")[0] for k in __import__("realops").checksum.algorithms})
+    by_cc = {}
+    for t in texts:
+        by_cc.setdefault(common.clean(t)[:2], []).append(t)
+    from realops import registry_lines
+    for cc, ts in sorted(by_cc.items()):
+        if cc in natl:
+            ops += registry_lines(S.banks_of(cc))
+        for t in ts:
+            c = common.clean(t)
+            ops.append(["iban.new", hx(t), "F", "F"])
+            ops.append(["iban.validate", hx(c), "F"])
+            ops.append(["iban.is_valid", hx(c)])
+            if cc in natl:
+                ops.append(["iban.new", hx(t), "F", "T"])
+        if cc in natl:
+            ops.append(["reg.reset"])
+    reals, _ = run.correspond("iban", ops, nontrivial_iban)
+    chk = []
+    for f, a in zip(ops, reals):
+        if f[0].startswith("reg."):
+            continue
+        if a.startswith("crash"):
+            run.violation(f[0], [unhx(f[1])] + f[2:], a, "a library exception or a value",
+                          "non-library exception escaped", op=f, expected_line="err")
+        if f[0] == "iban.is_valid" and not a.startswith("ok "):
+            run.violation("is_valid", [unhx(f[1])], a, "ok T/F", "is_valid raised", op=f)
+        if f[0] == "iban.new" and f[3] == "F" and a.startswith("err "):
+            chk.append((f, a))
+    out = spec_lines([["spec.iban_defect", a[4:], hx(common.clean(unhx(f[1])))] for f, a in chk])
+    for (f, a), o in zip(chk, out):
+        run.count(1, tag="defect check " + a[4:])
+        if o != "ok T":
+            run.violation("IBAN(text)", [unhx(f[1])], a, "an error class whose defect is present",
+                          "error class vs Spec defect predicate", op=f)
+    # BIC
+    bics = sorted({e["bic"] for e in S.banks if e["bic"]})
+    btexts = []
+    for b in r.sample(bics, run.scale(300, 5000)):
+        btexts += [b, S.mutate(b), S.mutate(S.mutate(b))]
+    for _ in range(run.scale(800, 30000)):
+        btexts.append(S.malformed()[:24])
+    bops = []
+    for t in btexts:
+        c = common.clean(t)
+        for strict in "FT":
+            bops.append(["bic.new", hx(t), "F", strict])
+            bops.append(["bic.validate", hx(c), strict])
+        bops.append(["bic.is_valid", hx(c)])
+    breals, _ = run.correspond("bic", bops)
+    chk = []
+    for f, a in zip(bops, breals):
+        if a.startswith("crash"):
+            run.violation(f[0], [unhx(f[1])] + f[2:], a, "a library exception or a value",
+                          "non-library exception escaped", op=f, expected_line="err")
+        if f[0] == "bic.is_valid" and not a.startswith("ok "):
+            run.violation("BIC.is_valid", [unhx(f[1])], a, "ok T/F", "is_valid raised", op=f)
+        if f[0] == "bic.new" and a.startswith("err "):
+            chk.append((f, a))
+    out = spec_lines([["spec.bic_defect", a[4:], f[3], hx(common.clean(unhx(f[1])))] for f, a in chk])
+    for (f, a), o in zip(chk, out):
+        run.count(1, tag="bic defect check " + a[4:])
+        if o != "ok T":
+            run.violation("BIC(text)", [unhx(f[1])], a, "an error class whose defect is present",
+                          "error class vs Spec defect predicate", op=f)
+
+
+# --------------------------------------------------------------------------- C11
+@prop("C11",
+      rule="valid IBANs of all countries (several per country, with registry banks) and registry BICs: all "
+           "accessors compared with the model and with the published positions read from the live table; "
+           "from_bban(country, bban) round trip; non-trivial = distinct accepted object",
+      note="slicing identities proved for the model; IBAN-level accessors are checked against the BBAN-level "
+           "ones on the implementation (they are proxies in the code)")
+def c11(run):
+    S = Streams(run.seed * 1000 + 11)
+    ops = []
+    ibans = []
+    for cc in S.countries:
+        for j in range(run.scale(4, 150)):
+            ibans.append(S.iban(cc, with_bank=bool(j % 2)).upper())
+    for i in ibans:
+        ops.append(["iban.parts", hx(i)])
+        ops.append(["iban.from_bban", hx(i[:2]), hx(i[4:])])
+    reals, _ = run.correspond("iban accessors", ops)
+    from realops import COMPONENT_ORDER
+    for k in range(0, len(ops), 2):
+        i = unhx(ops[k][1])
+        a = reals[k].split(" ")
+        if a[1] == "ACCESSOR-MISMATCH":
+            run.violation("iban.<component>", [i], reals[k], "IBAN accessor == BBAN accessor", "proxy check",
+                          op=ops[k])
+            continue
+        cc, dd, bban = unhx(a[1]), unhx(a[2]), unhx(a[3])
+        if cc + dd + bban != i:
+            run.violation("country_code+checksum_digits+bban", [i], cc + dd + bban, i, "concatenation", op=ops[k])
+        pos = S.table[cc].get("positions", {})
+        comps = a[5:]
+        used = []
+        for n, name in enumerate(COMPONENT_ORDER):
+            got = comps[2 * n] + " " + comps[2 * n + 1]
+            if name in pos:
+                s_, e_ = pos[name]
+                want = "ok " + hx(bban[s_:e_])
+                used.append((s_, e_, name))
+            else:
+                want = "ok -"
+            if got != want:
+                run.violation("iban.bban." + name, [i], got, want, "accessor vs published position", op=ops[k])
+        used.sort()
+        for (s1, e1, n1), (s2, e2, n2) in zip(used, used[1:]):
+            if e1 > s2:
+                run.violation("positions", [cc, n1, n2], f"{s1}:{e1} / {s2}:{e2}", "disjoint fields",
+                              "overlap check", kind="config")
+        if reals[k + 1] != "ok " + hx(i):
+            run.violation("IBAN.from_bban(country, bban)", [i], reals[k + 1], "ok " + hx(i), "reassembly",
+                          op=ops[k + 1], expected_line="ok " + hx(i))
+    bics = sorted({e["bic"] for e in S.banks if e["bic"]})
+    bops = [["bic.parts", hx(b)] for b in S.r.sample(bics, run.scale(1500, len(bics)))]
+    breals, _ = run.correspond("bic parts", bops)
+    for f, a in zip(bops, breals):
+        b = unhx(f[1])
+        p = [unhx(x) for x in a.split(" ")[1:5]]
+        if "".join(p) != b or (p[3] == "") != (len(b) == 8):
+            run.violation("bic parts", [b], a, "parts concatenate to the compact form", "concatenation", op=f)
